@@ -25,7 +25,7 @@ ASSUMPTIONS = [
     'calc purity: a mixture property depends only on (phase(s), T, P, composition) and the property package '
     '(monitored: every read is compared with a freshly built stream in the same state)',
     'the adapter numbers keys by exact equality of (nophase, phase(s), T, P, composition dict)',
-    'model mutator table (which public mutators call reset_cache) mirrors the code: unlink, '
+    'model mutator table (which public mutators call reset_cache) mirrors the code: unlink, link_with(flow or TP), '
     'MultiStream.phases=<different set>, _reset_thermo(<other package>)',
     'the property package is explicit model state: every read line carries the package the real object computed with and '
     'must equal the model object\'s package',
@@ -404,6 +404,7 @@ def run_ops(ops):
                             or other.thermo.chemicals is not other.imol.chemicals:
                         continue    # sharing flow data between different property packages is meaningless
                     s.link_with(w.objs[int(t[2])], flow=t[3] == '1', phase=t[4] == '1', TP=t[5] == '1')
+                    if t[3] == '1' or t[5] == '1': mk = 'resets'     # repair 9090df2: link_with(flow or TP) runs reset_cache()
                 elif op == 'unlink':
                     s.unlink(); mk = 'resets'
                 elif op == 'thermo':
